@@ -28,8 +28,11 @@ def build_population(ks, ns, dtype, bf):
     i = np.arange(1, n + 1, dtype=np.float64)
     x = np.stack([i, 10.0 + i], axis=1)
     lp = -0.5 * i - 1.0
-    ll = np.asarray(ks, dtype=np.float64) * math.log(2.0) + 3.0 * i
-    lq = ll + lp - np.asarray(ks, dtype=np.float64) * math.log(2.0)
+    kk = np.asarray([0 if k == 99 else k for k in ks], dtype=np.float64)
+    dead = np.asarray([k == 99 for k in ks])
+    ll = kk * math.log(2.0) + 3.0 * i
+    lq = ll + lp - kk * math.log(2.0)
+    ll = np.where(dead, -np.inf, ll)        # zero likelihood: incremental weight 0 for any move up
     s = SMCSamples(x, log_likelihood=ll, log_prior=lp, log_q=lq, xp=xp, dtype=dtype, beta=bf / 4.0)
     return s, dict(x=x, ll=ll, lp=lp, lq=lq)
 
@@ -78,7 +81,7 @@ def replay(verdict, tier, seed):
             for fld, got in (("x", out.x), ("ll", out.log_likelihood), ("lp", out.log_prior), ("lq", out.log_q)):
                 g = smcdrv.to_np(got).astype(np.float64)
                 srcv = smcdrv.to_np(getattr(s, {"x": "x", "ll": "log_likelihood", "lp": "log_prior", "lq": "log_q"}[fld])).astype(np.float64)
-                if g.shape[0] != size or not np.array_equal(g, srcv[rows]):
+                if g.shape[0] != size or not np.array_equal(g, srcv[rows]):  # -inf == -inf is True
                     verdict.violation(f"RowCopy|{fld}", f"field {fld} of the resampled population is not the source rows {rows} (ns={ns})", scen)
             ob = float(out.beta)
             if ob != bt / 4.0 or len(out) != size or smcdrv.width_of(out.x) != (64 if dt == "float64" else 32) or smcdrv.ns_of(out.x) != ns:
